@@ -25,13 +25,17 @@ CLAUSES = {1: "run_raised", 2: "slices_differ_from_snapshots", 3: "node_paths", 
 
 TRUSTED = [
     "translator/c03.py (python ast -> Gen_C03.src_tables / src_shape: exported and captured containers, time label, which "
-    "to_xarray copies, dims / coordinate origins / dtype conversion, concatenation and dtype restoration in run_pipeline, keys "
-    "of the final tree, debug reference; fails closed on any other shape)",
+    "to_xarray copies, which to_xarray SETS the y / x coordinates (and which only adds them when the stored array has none), "
+    "dims / coordinate origins / dtype conversion, concatenation and dtype restoration in run_pipeline (image only, guarded, "
+    "skipped while the variable has an unsigned type), keys of the final tree, debug reference; fails closed on any other shape)",
     "correspondence harness: harness/props/c03.py generators and literal emitters, harness/drivers/c03.py "
     "(canonical form of the returned DataTree), probes/verif_probes_c03.py (writer models, the last-running recorder)",
-    "modelled, not verified: xarray concat/expand_dims/DataTree (concatenation along time appends the slice of the step and "
-    "keeps integer dtypes; astype to the dtype of the current image), numpy casts and in-place arithmetic, np.allclose on "
-    "exact small integers, which numpy/xarray operations copy a buffer (np.array, astype, .copy) and which do not",
+    "modelled, not verified: xarray concat/expand_dims/DataTree (concatenation along time appends the slice of the step; "
+    "every variable gets numpy's common type of its slices -- Example C03_join_is_numpys states the table --, a missing slice "
+    "counts as float64; widening changes no value; astype to the dtype of the current image), `dataset[key] = data_array` and "
+    "xr.concat leave variables alone whose y / x labels agree (the model has NO result when they differ), numpy casts and "
+    "in-place arithmetic, np.allclose on exact small integers, which numpy/xarray operations copy a buffer (np.array, astype, "
+    ".copy) and which do not",
     "time labels on the 1/8 s grid (float64 start + t exact); array values are integers exactly representable in their dtype",
 ]
 
@@ -501,6 +505,58 @@ def exhaustive_cases() -> list:
     return out
 
 
+def exhaustive_dtype_cases() -> list:
+    """Thorough tier: EVERY ordered pair of float dtypes for the four float container kinds, every triple for the pixel
+    array, every ordered pair and every triple of distinct unsigned dtypes for the image; the value of a step is exact in
+    the dtype of that step and has no value in any narrower type."""
+    import itertools
+    L = last_model
+    BIG = dict(float64=2 ** 24 + 3, float32=2051, float16=5, uint64=2 ** 32 + 7, uint32=70001, uint16=301, uint8=9)
+    out = []
+
+    def case(b, waves, group, seq, k):
+        n = len(seq)
+        a = dict(kind="write", bucket=b, dtype=seq[0], waves=waves, mode="assign", idiom=0,
+                 per_step=[BIG[d] + 2 * i for i, d in enumerate(seq)], dtypes=list(seq))
+        return dict(rows=1, cols=2, start=0, times=[8 * (i + 1) for i in range(n)], nondestr=(k % 2 == 0), hier=(k % 3 == 0),
+                    debug=False, models=[dict(group=group, name="wd", actions=[a]), L()])
+    k = 0
+    for b, waves, group in (("photon", 0, "photon_collection"), ("photon", 2, "photon_collection"),
+                            ("pixel", 0, "charge_collection"), ("signal", 0, "charge_measurement")):
+        seqs = list(itertools.product(FLOATS, repeat=2))
+        if b == "pixel":
+            seqs += list(itertools.product(FLOATS, repeat=3))
+        for seq in seqs:
+            k += 1
+            out.append(case(b, waves, group, seq, k))
+    for seq in list(itertools.product(UINTS, repeat=2)) + list(itertools.permutations(UINTS, 3)):
+        k += 1
+        out.append(case("image", 0, "readout_electronics", seq, k))
+    return out
+
+
+def exhaustive_cube_cases() -> list:
+    """Thorough tier: every kind of y labels x every kind of x labels a photon cube can carry (none, the indices,
+    1-based, reversed, pixel centres, large, negative, shuffled), all five buckets written, one readout."""
+    import random
+    L = last_model
+    r = random.Random(7)
+    w = lambda b, dt, v, waves=0: dict(kind="write", bucket=b, dtype=dt, waves=waves, mode="assign", idiom=0, per_step=[v])  # noqa: E731
+    out = []
+    for j, yk in enumerate([None] + LABEL_KINDS):
+        for i, xk in enumerate([None] + LABEL_KINDS):
+            p = w("photon", "float64", 1, 2)
+            p["cube"] = dict(y=None if yk is None else labels_of(yk, 2, r), x=None if xk is None else labels_of(xk, 3, r),
+                             extra=[CUBE_EXTRAS[(i + j) % len(CUBE_EXTRAS)]] if (i + j) % 2 else [], order=(i + j) % 3)
+            out.append(dict(rows=2, cols=3, start=0, times=[8], nondestr=False, hier=(i % 2 == 0), debug=(j % 4 == 0),
+                            models=[dict(group="photon_collection", name="wp", actions=[p]),
+                                    dict(group="charge_generation", name="wc", actions=[dict(w("charge", "float64", 20), mode="iadd")]),
+                                    dict(group="charge_collection", name="wx", actions=[w("pixel", "float32", 30)]),
+                                    dict(group="charge_measurement", name="ws", actions=[w("signal", "float64", 40)]),
+                                    dict(group="readout_electronics", name="wi", actions=[w("image", "uint16", 500)]), L()]))
+    return out
+
+
 # ------------------------------------------------------------------------------------------ Coq emission
 
 
@@ -887,7 +943,10 @@ def run(ctx: Ctx):
     ctx.assumptions += [
         "labels on a dyadic grid (1/8 s); the driver uses strictly increasing readout times (what Readout accepts), the "
         "theorems need no ordering",
-        "C03_slices: image initialised in no step or in every step with one dtype (any values)",
+        "C03_slices: image initialised in no step or in every step, with any unsigned types (they may differ between the steps) "
+        "and any values; float buckets with any float types, which may differ between the steps",
+        "C03_coords: every to_xarray sets the y / x coordinates (C03_source_tables); at least one variable in some step",
+        "the wavelength labels of the result are judged (= those of the cubes the detector held) but not predicted by the model",
         "C03_slices / C03_debug_nodes: every to_xarray copies the container's buffer (C03_readouts_copy, table in Model/Result.v)",
         "a float bucket initialised in some steps only: judged (its slices equal the snapshots where it was initialised, all-NaN "
         "where it was not); an integer image missing at some step goes through NaN and a cast: recorded, not judged",
@@ -897,7 +956,7 @@ def run(ctx: Ctx):
 
     r = ctx.rng("cases")
     cases = fixed_cases()
-    budget = ctx.budget(200, 1300)
+    budget = ctx.budget(200, 1000)
     aimed = [dict(buckets=["photon", "signal", "pixel"], n=3, partial=True), dict(buckets=["photon"], n=4, partial=True, debug=True),
              dict(buckets=["signal", "image"], n=2, partial=True), dict(buckets=["pixel"], n=3), dict(buckets=["photon", "signal"], n=2), dict(debug=True, n=3),
              dict(debug=True, nondestr=True, n=2), dict(scene=True, hier=False), dict(data=True, n=4),
@@ -914,6 +973,12 @@ def run(ctx: Ctx):
     if not ctx.quick:
         ex = exhaustive_cases()
         ctx.cov["exhaustive_writer_sequences"] = len(ex)
+        cases += ex
+        ex = exhaustive_dtype_cases()
+        ctx.cov["exhaustive_dtype_sequences"] = len(ex)
+        cases += ex
+        ex = exhaustive_cube_cases()
+        ctx.cov["exhaustive_cube_label_kinds"] = len(ex)
         cases += ex
     pairs, mism, viol = evaluate(ctx, cases)
     seen = set()
@@ -1060,18 +1125,25 @@ META = dict(
         "layouts, debug capture before/after each model, read-outs that copy or share the container's buffer): the "
         "concatenation loses and invents no slice; the result holds exactly one slice per readout, in order, labelled "
         "start + t_i and equal to the detector's state at the end of that step -- every uint64 image value included; the "
-        "image keeps its unsigned dtype; layouts agree; scene/data pass through; debug does not alter the result and the node "
+        "image keeps its unsigned dtype -- when the dtype of a bucket differs between the readouts (float16/32/64, uint8..64) the "
+        "variable has numpy's common type of its slices and every slice keeps its values and shape (no slice is ever converted "
+        "to a narrower type); the bucket node is labelled with the row and column indices whatever coordinates a photon cube "
+        "carries, provided every read-out sets them (proved of the table regenerated from the code); layouts agree; scene/data "
+        "pass through; debug does not alter the result and the node "
         "of EVERY model (the first of a step included) holds exactly the buckets it changed, provided every read-out copies "
         "(proved of the table of the code; witnesses show each copy is needed). That pyxel's code behaves like the model is "
         "established by correspondence (testing): the DataTree returned by pyxel.run_mode for generated writer pipelines "
-        "(in-place and re-assigning writers of all six container kinds, several per step) is compared inside Coq with the "
+        "(in-place and re-assigning writers of all six container kinds, several per step; dtypes that change from step to step "
+        "with values the narrower types do not hold; multi-wavelength cubes carrying their own y / x / further coordinates) is "
+        "compared inside Coq with the "
         "model's prediction and judged against the specification using the snapshots of a last-running recorder probe and "
         "the before/after records of every model."),
     level_note=(
         "Trusted: Coq kernel + vm_compute; the correspondence harness, driver and probes; xarray concat / DataTree, numpy "
         "casts, in-place arithmetic and np.allclose are modelled, not verified. Time labels are integers on a 1/8 s grid and "
-        "array values are integers exactly representable in their dtype. Buckets initialised in some steps only (NaN-filled by "
-        "xarray) and the wavelength coordinate values are not judged."),
+        "array values are integers exactly representable in the dtype of their step. An integer image that is missing at some "
+        "step (NaN-filled, then cast) is not judged; photon cubes whose wavelength labels differ between the steps are not "
+        "generated."),
     technique="Coq proof over an executable result-assembly model + in-Coq correspondence/specification evaluation",
     design_ref="DESIGN.md section 6, C03",
 )
